@@ -154,7 +154,7 @@ def run(ctx: Ctx):
         sel = []
         for i, e in enumerate(cat):
             per[e.group] = per.get(e.group, 0) + 1
-            if per[e.group] <= 10:
+            if per[e.group] <= 6:
                 sel.append((i, e))
     else:
         sel = list(enumerate(cat))
@@ -171,14 +171,19 @@ def run(ctx: Ctx):
         # quick tier: the derived views (H, T, conj, their adjoints, gram_op) of the first
         # configurations of each class only; adj for every selected configuration
         nview[e.group] = nview.get(e.group, 0) + 1
-        mats = relations(A, want_views=(not ctx.quick) or nview[e.group] <= 4)
+        big = L.rdim(A.input_shape, A.input_dtype) * L.rdim(A.output_shape, A.output_dtype) > 1500
+        mats = relations(A, want_views=(not ctx.quick) or (nview[e.group] <= 2 and not big))
         items.append((key, A, mats, tol_for(e, A)))
         ctx.count(e.cls, key)
+    import time as _t
+    _t0 = _t.time()
     n1, _ = check_entries(ctx, items, lambda k: k["class"], "C01_cat")
+    ctx.notes.append(f"timing: catalogue relations evaluated in Coq {_t.time() - _t0:.0f} s ({n1} relations)")
+    _t0 = _t.time()
 
     # expression trees: adjoint of derived operators
     items = []
-    ntree = ctx.n(40, 600)
+    ntree = ctx.n(30, 600)
     for t in range(ntree):
         dt = ctx.rng.choice([np.float64, np.complex128])
         n = ctx.rng.choice([2, 3])
@@ -240,9 +245,14 @@ def run(ctx: Ctx):
                 continue
             items.append((key, A, relations(A, want_views=False), 2.0 ** -30))
             ctx.count("pair:" + op, key)
+    ctx.notes.append(f"timing: building trees / pairs {_t.time() - _t0:.0f} s")
+    _t0 = _t.time()
     n2, _ = check_entries(ctx, items, lambda k: "expression:" + root_of(k["tree"]), "C01_tree")
+    ctx.notes.append(f"timing: tree relations evaluated in Coq {_t.time() - _t0:.0f} s ({n2} relations)")
     ctx.traces = n1 + n2
+    _t0 = _t.time()
     default_mode_stream(ctx, seed, level)
+    ctx.notes.append(f"timing: default-mode probe {_t.time() - _t0:.0f} s")
 
 
 def default_mode_stream(ctx, seed, level):
@@ -256,7 +266,7 @@ def default_mode_stream(ctx, seed, level):
     from vf.common import VERIF, REPO
     env = dict(os.environ, PYTHONPATH=f"{REPO}:{VERIF}", VERIF_DEFAULT_MODE="1", JAX_PLATFORMS="cpu")
     env.pop("JAX_ENABLE_X64", None)
-    cap = 4 if ctx.quick else 1000
+    cap = 3 if ctx.quick else 1000
     p = subprocess.run([sys.executable, "-W", "ignore", str(VERIF / "vf" / "default_mode_probe.py"), str(seed), str(level), str(cap)],
                        capture_output=True, text=True, env=env, timeout=3000)
     done = None
